@@ -197,7 +197,7 @@ func signOp(name string, curve *ref.Curve, ds []*big.Int, legacy bool) *opImpl {
 		d := ds[c.Key]
 		if raw(c) {
 			if c.Force > 0 {
-				s := o.sampler(buildStream(c, 0, false, curve.N))
+				s := o.sampler(o.stream(c))
 				k1 := s.next()
 				e = forcedDigest(curve, d, k1, c.Force)
 				return b32(e), e
